@@ -8,6 +8,7 @@ import PySpikeVerif.Model.Api
 import PySpikeVerif.Proofs.Basic
 import Mathlib.Data.List.Basic
 import PySpikeVerif.Proofs.FilterLaws
+import PySpikeVerif.Proofs.SyncScan
 
 namespace PySpike.C17
 open PySpike
@@ -114,5 +115,14 @@ theorem threshold_one_keeps_nothing (kw : Kw) (thr : Q) (L : List Train) (hr : k
     (h1 : 1 ≤ thr) (i : Nat) (hi : i < L.length) :
     (tr (filterBySync kw thr L).1 i).spikes = [] ∧
     (tr (filterBySync kw thr L).2 i).spikes = (tr L i).spikes := filter_thr_one_none kw thr L hr h1 i hi
+
+/-- the per-pair indicator summed by the filter is the pairwise coincidence definition — the same
+    relation `Coinc` that defines the SPIKE-Sync profile (Properties/C03): the k-th spike of train i
+    counts train j iff some spike of train j is closer than the coincidence window -/
+theorem indicator_is_profile_definition (s1 s2 : List Q) (ts te mt m : Q)
+    (h1 : StrictSorted s1) (h2 : StrictSorted s2) :
+    coincSingle s1 s2 ts te mt m
+      = s1.map fun a => if s2.any (fun b => decide (Coinc s1 s2 (trueMax ts te mt) m a b)) then 1 else 0 :=
+  coincSingle_eq_spec s1 s2 ts te mt m h1 h2
 
 end PySpike.C17
